@@ -23,6 +23,8 @@ class St:
     choice: str | None = None
     type: str = "v"
     reducers: dict = field(default_factory=dict)
+    region: str | None = None  # cancel_region (WCP-25)
+    milestone: tuple | None = None  # (milestone_ref_id, milestone_status) (WCP-18)
 
 
 @dataclass
@@ -68,6 +70,9 @@ class Workload:
                     mutex_key=s.mutex,
                     deferred_choice_group=s.choice,
                     output_reducers=dict(s.reducers),
+                    cancel_region=s.region,
+                    milestone_ref_id=s.milestone[0] if s.milestone else None,
+                    milestone_status=s.milestone[1] if s.milestone else None,
                 )
             )
         wf = Workflow.create(application="verif", name=self.name, stages=stages, context=dict(self.wf_ctx))
@@ -193,6 +198,18 @@ def with_decoy(kind, name, *args):
     w.decoy = kind
     w.name = f"{w.name}+decoy-{kind}"
     return w
+
+
+def region_diamond():
+    """A -> (B, C in cancel region 'r') -> D ; E independent of the region."""
+    return Workload("region_diamond", [St("A"), St("B", ("A",), region="r"),
+                                       St("C", ("A",), region="r", tasks=[("t1", {"kind": "ok"}), ("t2", {"kind": "ok"})]),
+                                       St("D", ("B", "C")), St("E", ("A",))], klass="racy")
+
+
+def milestone2():
+    """X is enabled only while A is RUNNING (milestone): depending on the order X runs or is skipped; Z joins both."""
+    return Workload("milestone2", [St("A"), St("X", milestone=("A", "RUNNING")), St("Z", ("A", "X"))], klass="racy")
 
 
 def slow_branch(k=5):
